@@ -52,7 +52,20 @@ def text_inputs(chk, quick):
             if rng.random() < 0.3:
                 m = c09.mutate_text(rng, m)
             datas.append(m)
+    # every single-byte substitution by a hostile byte (NUL, line ends, the separators, UTF-8 continuation / lead bytes, 0xFF) at
+    # every position of small reports: the readers slice strings they got from from_utf8_unchecked
+    small = sorted((G.render_report(r) for r in reports), key=len)
+    small = [d for d in small if 40 <= len(d)][: (1 if quick else 6)]
+    for d in small:
+        d = d[:260]
+        for pos in range(len(d)):
+            for b in HOSTILE:
+                if d[pos] != b:
+                    datas.append(d[:pos] + bytes([b]) + d[pos + 1:])
     return datas
+
+
+HOSTILE = [0x00, 0x0a, 0x0d, 0x2c, 0x3a, 0x80, 0xbf, 0xc3, 0xff]
 
 
 def run_text(chk, quick, counts):
